@@ -2,6 +2,9 @@
 //!   rot=<m|h|d|n> pre=<hex|-> suf=<hex|-> max=<n|-> t0=<unix> ;; op ; op ; …
 //!   ops: t <unix> (set the clock) | w <hex> (io::Write::write_all) | mw <hex> (make_writer().write_all)
 //!        | par <n> (n threads, released together, each make_writer + one line "P<i>\n") | ls
+//!        | hold <hex> (a thread takes a writer with make_writer(), writes, and KEEPS the writer alive)
+//!        | mwb <hex> (a thread does make_writer().write_all — it may have to wait for a held writer) | rel (the held writer is
+//!          dropped; both threads are joined)
 //! `ls` prints `name=<hex content>` for every file, sorted by name (content lines of a `par` step sorted).
 //! One case per process.
 use std::io::Write;
@@ -41,22 +44,50 @@ fn main() {
     if get("pre=") != "-" { b = b.filename_prefix(unhex_str(get("pre="))); }
     if get("suf=") != "-" { b = b.filename_suffix(unhex_str(get("suf="))); }
     if get("max=") != "-" { b = b.max_log_files(get("max=").parse().unwrap()); }
-    let mut app = b.build(&dir).expect("build");
+    let mut app = Arc::new(b.build(&dir).expect("build"));
+    let mut holder: Option<(std::sync::mpsc::Sender<()>, std::thread::JoinHandle<()>)> = None;
+    let mut waiters: Vec<std::thread::JoinHandle<()>> = Vec::new();
     let mut outs: Vec<String> = Vec::new();
     let mut sort_lines = false;
     for op in toks[sep + 1..].split(|t| *t == ";") {
         if op.is_empty() { continue; }
-        // file creation times are what pruning sorts by: keep them strictly increasing
-        std::thread::sleep(std::time::Duration::from_millis(2));
+        // file creation times are what pruning sorts by, and the file system stamps them with the kernel's coarse clock (a tick,
+        // up to 10 ms): operations that can create a file are spaced by more than a tick so that creation order = stamp order
+        std::thread::sleep(std::time::Duration::from_millis(if matches!(op[0], "w" | "mw" | "par" | "hold" | "mwb") { 12 } else { 1 }));
         let o = match op[0] {
             "t" => { tracing_appender::rolling::__verif::set_unix_time(Some(op[1].parse().unwrap())); "-".to_string() }
-            "w" => { let r = app.write_all(&unhex(op[1])); let _ = app.flush(); if r.is_ok() { "ok".into() } else { "err".into() } }
+            "w" => match Arc::get_mut(&mut app) {
+                Some(a) => { let r = a.write_all(&unhex(op[1])); let _ = a.flush(); if r.is_ok() { "ok".into() } else { "err".into() } }
+                None => "bad-op".into(),       // the exclusive interface cannot be used while another thread shares the appender
+            },
+            "hold" => {
+                let a = app.clone(); let data = unhex(op[1]);
+                let (tx, rx) = std::sync::mpsc::channel::<()>();
+                let (rtx, rrx) = std::sync::mpsc::channel::<()>();
+                let h = std::thread::spawn(move || { let mut w = a.make_writer(); let _ = w.write_all(&data); let _ = rtx.send(()); let _ = rx.recv(); drop(w); });
+                let _ = rrx.recv();
+                holder = Some((tx, h));
+                "ok".into()
+            }
+            "mwb" => {
+                let a = app.clone(); let data = unhex(op[1]);
+                let (etx, erx) = std::sync::mpsc::channel::<()>();
+                waiters.push(std::thread::spawn(move || { let _ = etx.send(()); let mut w = a.make_writer(); let _ = w.write_all(&data); let _ = w.flush(); }));
+                let _ = erx.recv();
+                std::thread::sleep(std::time::Duration::from_millis(30));     // let it reach the lock it may have to wait for
+                "ok".into()
+            }
+            "rel" => {
+                if let Some((tx, h)) = holder.take() { let _ = tx.send(()); let _ = h.join(); }
+                for w in waiters.drain(..) { let _ = w.join(); }
+                "ok".into()
+            }
             "mw" => { let mut w = app.make_writer(); let r = w.write_all(&unhex(op[1])); let _ = w.flush(); if r.is_ok() { "ok".into() } else { "err".into() } }
             "par" => {
                 let n: usize = op[1].parse().unwrap();
                 sort_lines = true;
                 let barrier = Arc::new(Barrier::new(n));
-                let appr = &app;
+                let appr = &*app;
                 std::thread::scope(|s| {
                     for i in 0..n {
                         let bar = barrier.clone();
@@ -70,6 +101,8 @@ fn main() {
         };
         outs.push(o);
     }
+    if let Some((tx, h)) = holder.take() { let _ = tx.send(()); let _ = h.join(); }
+    for w in waiters.drain(..) { let _ = w.join(); }
     drop(app);
     let _ = std::fs::remove_dir_all(&dir);
     println!("{}", outs.join(" "));
